@@ -50,8 +50,9 @@ MANIFEST = {
             "this bounded family.",
     "note": "Bounded family (12 / 27 points, cells of the menu). Excluded and counted: tuples with a bond whose minimum image "
             "is outside C05's domain (skewed cells: d* >= half the smallest width of the cell as given) or not unique within "
-            "the error model, and ill-conditioned tuples (sine of a bond angle < 1e-2). Torsions across a numbering gap "
-            "inside one chain and non-standard residues are not judged (docstrings silent). Side-chain definitions are the "
+            "the error model, and ill-conditioned tuples (sine of a bond angle < 1e-2). Neighbouring residues are those "
+            "adjacent in the chain's residue order, whatever their residue numbers (gaps, repeats, restarts); residues "
+            "whose atom names match two patterns are not built (docstrings silent). Side-chain definitions are the "
             "IUPAC table per residue type; mdtraj matches by atom names regardless of residue type.",
     "ref": "DESIGN.md §3 C07, §2.4",
 }
@@ -419,6 +420,22 @@ VOCABULARIES = {
 }
 
 
+RESSEQ_SCHEMES = {
+    "from-1": lambda k, L: k + 1,
+    "offset-437": lambda k, L: 437 + k,
+    "gap": lambda k, L: k + 1 if k < L // 3 else k + 5,                       # ... 6, 11, 12 ...
+    "two-gaps": lambda k, L: k + 1 + (3 if k >= 4 else 0) + (10 if k >= 12 else 0),
+    "insertion-codes": lambda k, L: k + 1 if k < 5 else (6 if k < 8 else k - 1),   # three consecutive residues numbered 6
+    "repeat-at-start": lambda k, L: 1 if k < 3 else k - 1,
+    "restart-inside": lambda k, L: k + 1 if k < L // 2 else k - L // 2 + 1,      # 1..10, 1..10 in one chain
+    "all-equal-0": lambda k, L: 0,
+    "all-equal-1": lambda k, L: 1,
+    "negative": lambda k, L: k - 7,                                            # -7 .. 12, crosses 0
+    "descending": lambda k, L: 100 - k,
+    "shifted-by-one-duplicate": lambda k, L: k + 1 if k < 9 else k,             # ... 9, 9, 10 ...: next residue's number = own
+}
+
+
 def _variants(seqname, seq):
     """All topology variants of one sequence: (family, label, chains, drop, reverse_atoms, hydrogens)."""
     out = [("intact", "intact", [seq], (), False, False),
@@ -439,6 +456,12 @@ def _variants(seqname, seq):
             named = [voc(k, L, r) for k, r in enumerate(seq)]
             out.append(("vocab-" + vname.split("/")[0], "vocab-" + vname, [named], (), False, False))
             out.append(("vocab-" + vname.split("/")[0], "vocab-%s+split@%d" % (vname, L // 2), [named[:L // 2], named[L // 2:]],
+                        (), False, False))
+        # residue-number (resSeq) schemes: neighbours are defined by residue ORDER within the chain, never by number
+        for sname, fn in RESSEQ_SCHEMES.items():
+            numbered = ["%s@%d" % (r, fn(k, L)) for k, r in enumerate(seq)]
+            out.append(("resseq-" + sname, "resseq-" + sname, [numbered], (), False, False))
+            out.append(("resseq-" + sname, "resseq-%s+split@%d" % (sname, L // 2 + 1), [numbered[:L // 2 + 1], numbered[L // 2 + 1:]],
                         (), False, False))
         for k in range(L):
             named = [("%s:ZZZ" % r) if i == k else r for i, r in enumerate(seq)]
